@@ -10,7 +10,7 @@ import (
 )
 
 func init() {
-	Explanations["C07"] = "Decides structural necessary conditions of non-double-allocating wallet funding in wallet.SingleAddressWallet: (R1) the reservation map is read and written only at points where the wallet mutex is definitely held (lockset dataflow with call-site-derived entry states for unexported helpers); (R2) no error-capable return is reachable after the reservation call in any reserving function; (R3) every function that builds a pool-spent set from the v1 pool list also builds it from the v2 list and writes the same spent maps in both loops; (R4) when two loops take candidates from the same sorted candidate slice (largest-first, then defrag; or successive redistribute batches) every path between them re-slices the candidate variable past what was taken; (R5) every lock-holding loop over the stored unspent outputs applies all three filters (reserved, pool-spent, maturity) to the element. NOT decided: value conservation (inputs = amount + change + fee), acceptance of the funded transaction by the pool, reservation expiry timing, behaviour after restart."
+	Explanations["C07"] = "Decides structural necessary conditions of non-double-allocating wallet funding in wallet.SingleAddressWallet: (R1) the reservation map is read and written only at points where the wallet mutex is definitely held (lockset dataflow with call-site-derived entry states for unexported helpers); (R2) no error-capable return is reachable after the reservation call in any reserving function; (R3) every function that builds a pool-spent set from the v1 pool list also builds it from the v2 list and writes the same spent maps in both loops; (R4) when two loops take candidates from the same sorted candidate slice (largest-first, then defrag; or successive redistribute batches) every path between them re-slices the candidate variable past what was taken; (R5) every lock-holding loop over the stored unspent outputs applies all three filters (reserved, pool-spent, maturity) to the element; (R6) in every function that both selects (calls a helper consulting the reservation test) and reserves, no unlock of the wallet mutex lies on a path between the two; (R7) once output ids have been collected into the slice handed to the reservation call, no success return is reachable without passing that call. NOT decided: value conservation (inputs = amount + change + fee), acceptance of the funded transaction by the pool, reservation expiry timing, behaviour after restart."
 
 	register(&Rule{ID: "C07.R1", Prop: "C07", Floor: 5,
 		Doc: "one mutex: every access to the reservation map happens with the wallet mutex held",
@@ -24,6 +24,12 @@ func init() {
 	register(&Rule{ID: "C07.R4", Prop: "C07", Floor: 2,
 		Doc: "disjoint selection: candidates taken by one loop are sliced off before another loop takes from the same slice",
 		Run: c07r4})
+	register(&Rule{ID: "C07.R6", Prop: "C07", Floor: 3,
+		Doc: "selection and reservation happen in one critical section (no unlock between them)",
+		Run: c07r6})
+	register(&Rule{ID: "C07.R7", Prop: "C07", Floor: 3,
+		Doc: "a successful request reserves what it selected: no success return after collecting ids to reserve without the reservation call",
+		Run: c07r7})
 	register(&Rule{ID: "C07.R5", Prop: "C07", Floor: 5,
 		Doc: "three filters everywhere: reserved, pool-spent and maturity tests in every lock-holding loop over stored outputs",
 		Run: c07r5})
@@ -600,5 +606,173 @@ func c07r5(c *Ctx) {
 				ob.Check(t.ok, nil, "the loop over stored outputs at %s has no %s test on the element: %s, so this view disagrees with the other views and selection", c.P.Pos(rs.Pos()), t.role, t.msg)
 			}
 		})
+	}
+}
+
+func c07r6(c *Ctx) {
+	mu := c.P.Field("wallet", "SingleAddressWallet", "mu")
+	locked := c.P.Field("wallet", "SingleAddressWallet", "locked")
+	methods := walletMethods(c)
+	ls := NewLockset(c.P, mu, methods)
+	rs := reservers(c)
+	// selectors: unexported methods that (transitively, 2 hops) read the reservation map and return candidate elements
+	reads := map[*types.Func]bool{}
+	for round := 0; round < 3; round++ {
+		for _, m := range methods {
+			if exported(m) {
+				continue
+			}
+			isRes := false
+			for _, r := range rs {
+				if m.Obj == r {
+					isRes = true
+				}
+			}
+			if isRes {
+				continue
+			}
+			if m.MentionsField(m.Body, true, locked) {
+				reads[m.Obj] = true
+			}
+			for _, call := range m.Calls(true) {
+				if reads[call.Fn] {
+					reads[m.Obj] = true
+				}
+			}
+		}
+	}
+	for _, f := range methods {
+		resCalls := f.CallsTo(false, rs...)
+		if len(resCalls) == 0 {
+			continue
+		}
+		isRes := false
+		for _, r := range rs {
+			if f.Obj == r {
+				isRes = true
+			}
+		}
+		if isRes {
+			continue
+		}
+		g := f.Graph()
+		// selection points: calls of reading helpers, or direct reads of the map
+		var sel []*cfgx.Node
+		for _, n := range g.Nodes {
+			if n.AST == nil {
+				continue
+			}
+			hit := f.MentionsField(n.AST, false, locked)
+			for _, call := range f.NodeCalls(n) {
+				if reads[call.Fn] {
+					hit = true
+				}
+			}
+			if hit {
+				sel = append(sel, n)
+			}
+		}
+		if len(sel) == 0 {
+			continue
+		}
+		c.VisitGraph(f)
+		ob := c.Ob(f, "select-and-reserve-atomic", resCalls[0].Pos())
+		bad := ""
+		for _, rc := range resCalls {
+			rn := g.NodeContaining(rc.Pos())
+			for _, sn := range sel {
+				if sn == rn {
+					continue
+				}
+				for x := range pathNodesBetween(g, sn, rn) {
+					if x.AST == nil {
+						continue
+					}
+					if _, isDefer := x.AST.(*ast.DeferStmt); isDefer {
+						continue
+					}
+					for _, call := range f.NodeCalls(x) {
+						if ls.lockOp(f, call) == -1 {
+							bad = c.P.Pos(x.Pos())
+						}
+					}
+				}
+			}
+		}
+		ob.Check(bad == "", nil, "the wallet mutex is released at %s between selecting outputs and reserving them: a concurrent request selects the same outputs in the gap and two un-released funded transactions share an input", bad)
+	}
+}
+
+func c07r7(c *Ctx) {
+	rs := reservers(c)
+	for _, f := range walletMethods(c) {
+		isRes := false
+		for _, r := range rs {
+			if f.Obj == r {
+				isRes = true
+			}
+		}
+		if isRes {
+			continue
+		}
+		for _, rc := range f.CallsTo(false, rs...) {
+			if len(rc.Expr.Args) != 1 {
+				continue
+			}
+			ids := f.ObjOf(rc.Expr.Args[0])
+			if ids == nil {
+				continue // a literal list is reserved where it is built
+			}
+			g := f.Graph()
+			c.VisitGraph(f)
+			ob := c.Ob(f, "collected-ids-are-reserved", rc.Pos())
+			isLock := func(n *cfgx.Node) bool {
+				for _, call := range f.NodeCalls(n) {
+					for _, r := range rs {
+						if call.Fn == r && len(call.Expr.Args) == 1 && f.ObjOf(call.Expr.Args[0]) == ids {
+							return true
+						}
+					}
+				}
+				return false
+			}
+			bad := false
+			for _, n := range g.Nodes {
+				if n.AST == nil {
+					continue
+				}
+				appends := false
+				for _, w := range f.WritesIn(n.AST, false) {
+					if f.ObjOf(w.LHS) == ids && w.RHS != nil {
+						if ac, ok := ast.Unparen(w.RHS).(*ast.CallExpr); ok {
+							if id, ok := ac.Fun.(*ast.Ident); ok && id.Name == "append" {
+								appends = true
+							}
+						}
+					}
+				}
+				if !appends {
+					continue
+				}
+				var st []*cfgx.Visit
+				for _, e := range n.Succs {
+					st = append(st, cfgx.StartAfter(e, 0))
+				}
+				reach := g.Reach(st, isLock)
+				for _, ret := range g.Returns() {
+					if v, ok := reach[ret]; ok && f.ClassifyReturn(ret) != ir.RetError {
+						ob.Bad(c.Witness(v), "the return at %s is reachable after output ids were collected at %s without reserving them: the returned transactions spend outputs that later requests will select again", c.P.Pos(ret.Pos()), c.P.Pos(n.Pos()))
+						bad = true
+						break
+					}
+				}
+				if bad {
+					break
+				}
+			}
+			if !bad {
+				ob.OK("every non-error return after collecting ids passes the reservation")
+			}
+		}
 	}
 }
